@@ -1899,3 +1899,7 @@ def _end_inside_start(src):
 M2("c20-end-timestamp-decoded-only-with-a-start", "C20", "R4.conversion-depends-on-its-own-presence-only", [{"file": "lambda_service.py", "fn": _end_inside_start}], desc="r8_C20")
 M("c06-timer-drops-the-error-while-execute-waits", "C06", "R4.timer-drops-an-error-only-on-the-way-out", "concurrency/executor.py",
   "                if self._completion_event.is_set():\n                    # execute() is returning", "                if not self._completion_event.is_set():\n                    # execute() is returning")
+M("c12-overflow-fallback-parity-inverted", "C12", "R4.overflow-fallback-follows-the-product", "waits.py",
+  "(config.backoff_rate > 0 or (attempts_made - 1) % 2 == 0)", "(config.backoff_rate > 0 or (attempts_made - 1) % 2 != 0)")
+M("c12-retry-delay-dropped-when-retrying", "C12", "R2.decision-implies-effect", "operation/step.py",
+  "            delay_seconds = retry_decision.delay_seconds if should_retry else 0", "            delay_seconds = retry_decision.delay_seconds if not should_retry else 0")
